@@ -1912,4 +1912,149 @@ theorem write_commented (sd : SD) (h : WOK sd) :
     rw [← hl', htoks] at this
     exact this
 
+/-! ## 11. placeholder words and the library's own recognisers -/
+
+theorem ascii_digitVal : ∀ c ∈ C02.asciiDigits, (digitVal c).isSome = true := by decide
+
+theorem digitRun_go_digits : ∀ (ds r : Str) (acc : Nat), (∀ c ∈ ds, c ∈ C02.asciiDigits) →
+    digitRun.go ds.length (ds ++ r) acc = some (ds.foldl (fun a c => a * 10 + (digitVal c).getD 0) acc)
+  | [], _, _, _ => rfl
+  | c :: ds, r, acc, h => by
+    obtain ⟨d, hd⟩ := Option.isSome_iff_exists.mp (ascii_digitVal c (h c List.mem_cons_self))
+    simp only [List.length_cons, List.cons_append, digitRun.go, hd, List.foldl_cons, Option.getD_some]
+    exact digitRun_go_digits ds r _ (fun x hx => h x (List.mem_cons_of_mem _ hx))
+
+theorem digitRun_padSix {i : Nat} (hi : i ≤ 999999) (r : Str) : digitRun 6 (padSix i ++ r) = some i := by
+  have hl := C02.padSix_length hi
+  have := digitRun_go_digits (padSix i) r 0 (C02.padSix_ascii i)
+  rw [hl] at this
+  have hv := C02.digitsVal_padSix i
+  simp only [digitsVal] at hv
+  rw [hv] at this
+  exact this
+
+theorem kw_no_digit : ∀ c ∈ kwLine ++ kwBlock, digitVal c = none := by decide
+
+theorem firstSix_skip : ∀ (kw s : Str), (∀ c ∈ kw, digitVal c = none) → firstSixDigits (kw ++ s) = firstSixDigits s
+  | [], _, _ => rfl
+  | c :: kw, s, h => by
+    have hc := h c List.mem_cons_self
+    have : digitRun 6 (c :: (kw ++ s)) = none := by
+      simp [digitRun, digitRun.go, hc]
+    simp only [List.cons_append, firstSixDigits, this]
+    exact firstSix_skip kw s (fun x hx => h x (List.mem_cons_of_mem _ hx))
+
+theorem kwOf_no_digit (l : Bool) : ∀ c ∈ kwOf l, digitVal c = none := by
+  intro c hc
+  apply kw_no_digit
+  cases l
+  · exact List.mem_append_right _ hc
+  · exact List.mem_append_left _ hc
+
+/-- `int(re.findall(r"\d{6}", ph)[0])` is the id -/
+theorem firstSix_ph (l : Bool) {i : Nat} (hi : i ≤ 999999) : firstSixDigits (phWord l i) = some i := by
+  have e : phWord l i = kwOf l ++ padSix i := rfl
+  rw [e, firstSix_skip _ _ (kwOf_no_digit l)]
+  have hd := digitRun_padSix hi []
+  rw [List.append_nil] at hd
+  cases hp : padSix i with
+  | nil =>
+    have := C02.padSix_length hi
+    rw [hp] at this; cases this
+  | cons c cs =>
+    rw [hp] at hd
+    simp only [firstSixDigits, hd]
+
+theorem containsPh_own (l : Bool) {i : Nat} (hi : i ≤ 999999) : containsPh (kwOf l) (phWord l i) = true := by
+  have e : phWord l i = kwOf l ++ padSix i := rfl
+  simp only [containsPh, List.any_eq_true, Bool.and_eq_true]
+  refine ⟨phWord l i, ?_, ?_, ?_⟩
+  · cases hp : phWord l i with
+    | nil => exact absurd hp (phWord_ne l i)
+    | cons c r => simp [tails]
+  · rw [e, List.isPrefixOf_iff_prefix]; exact List.prefix_append _ _
+  · rw [e, List.drop_left]
+    have hd := digitRun_padSix hi []
+    rw [List.append_nil] at hd
+    rw [hd]; rfl
+
+theorem containsPh_false {kw s : Str} (h : isInfix kw s = false) : containsPh kw s = false := by
+  cases hc : containsPh kw s with
+  | false => rfl
+  | true => rw [C01.containsPh_infix hc] at h; cases h
+
+theorem not_infix_of_notMem {c : Char} {kw s : Str} (hc : c ∈ kw) (hs : c ∉ s) : isInfix kw s = false := by
+  cases h : isInfix kw s with
+  | false => rfl
+  | true => exact absurd (mem_of_infix h c hc) hs
+
+theorem kw_marks : 'B' ∈ kwBlock ∧ 'U' ∈ kwIncl ∧ 'U' ∉ kwLine ∧ 'U' ∉ kwBlock ∧ 'I' ∈ kwLine ∧ 'I' ∉ kwBlock := by decide
+theorem digit_not_U : ∀ c ∈ C02.asciiDigits, c ≠ 'U' := by decide
+
+theorem ph_no_U (l : Bool) (i : Nat) : 'U' ∉ phWord l i := by
+  intro h
+  simp only [phWord, List.mem_append] at h
+  rcases h with h | h
+  · cases l
+    · exact kw_marks.2.2.2.1 (by simpa using h)
+    · exact kw_marks.2.2.1 (by simpa using h)
+  · exact digit_not_U _ (C02.padSix_ascii i _ h) rfl
+
+/-- a placeholder word holds no include placeholder -/
+theorem containsPh_incl_ph (l : Bool) (i : Nat) : containsPh kwIncl (phWord l i) = false :=
+  containsPh_false (not_infix_of_notMem kw_marks.2.1 (ph_no_U l i))
+
+theorem linePh_no_B (i : Nat) : 'B' ∉ phWord true i := by
+  intro h
+  simp only [phWord, if_true, List.mem_append] at h
+  rcases h with h | h
+  · exact kw_BI.2.1 h
+  · exact (digit_not_BI _ (C02.padSix_ascii i _ h)).1 rfl
+
+/-- a line-comment placeholder word holds no block-comment placeholder -/
+theorem containsPh_block_line (i : Nat) : containsPh kwBlock (phWord true i) = false :=
+  containsPh_false (not_infix_of_notMem kw_marks.1 (linePh_no_B i))
+
+/-- a block-comment placeholder word holds no line-comment placeholder -/
+theorem containsPh_line_block (i : Nat) : containsPh kwLine (phWord false i) = false := by
+  apply containsPh_false
+  apply not_infix_of_notMem kw_marks.2.2.2.2.1
+  intro h
+  simp only [phWord, Bool.false_eq_true, if_false, List.mem_append] at h
+  rcases h with h | h
+  · exact kw_marks.2.2.2.2.2 h
+  · exact (digit_not_BI _ (C02.padSix_ascii i _ h)).2 rfl
+
+/-- our recogniser on a placeholder entry -/
+theorem phOf_ph (l : Bool) {i : Nat} (hi : i ≤ 999999) :
+    phOf (.str (phWord l i)) (.str (phWord l i)) = some (l, i) := by
+  cases l with
+  | false =>
+    have : phIdOf kwBlock (phWord false i) = some i := phIdOf_ph kwBlock hi
+    simp [phOf, this]
+  | true =>
+    have h1 : phIdOf kwBlock (phWord true i) = none := by
+      cases h : phIdOf kwBlock (phWord true i) with
+      | none => rfl
+      | some j =>
+        exfalso
+        have := (phIdOf_some h).1
+        have hB : 'B' ∈ phWord true i := by rw [this]; simp [kw_marks.1]
+        exact linePh_no_B i hB
+    have h2 : phIdOf kwLine (phWord true i) = some i := phIdOf_ph kwLine hi
+    simp [phOf, h1, h2]
+
+/-- a key of the value domain is no placeholder entry -/
+theorem phOf_dom {k : Key} (h : isDomKey k = true) (x : Scalar) : phOf k x = none := by
+  cases hp : phOf k x with
+  | none => rfl
+  | some li =>
+    obtain ⟨l, i⟩ := li
+    exfalso
+    obtain ⟨rfl, _, _⟩ := phOf_some hp
+    simp only [isDomKey, Bool.and_eq_true] at h
+    have := (C01.isSrcWord_iff.mp h.1.1).2.1
+    have h2 : isInfix "COMMENT".toList (phWord l i) = true := kwComment_in_ph l i
+    rw [h2] at this; cases this
+
 end DictIO.C12W
